@@ -10,28 +10,53 @@ Theorem C06_capacity_tied : Z.of_nat CAP = EVENTS_CAPACITY.
 Proof. reflexivity. Qed.
 Print Assumptions C06_capacity_tied.
 
-(* no lost wake-up: a member that owes a message or a closure is always in the ready list or still to be
-   drained in the current batch - any interleaving, any number of ready members, adds with traffic queued, EINTR *)
-Theorem C06_no_lost_wakeup : forall ls s, run init ls = Some s ->
+(* In all statements `tornp` says which messages were left unfinished by a sender that died inside a multi-fragment send (their
+   first fragment is queued, the rest never comes): the theorems hold for every such choice, together with every interleaving. *)
+
+(* no lost wake-up: a member that owes a message or a closure (or merely holds the remains of a crashed sender's message) is always
+   in the ready list or still to be drained in the current batch - any interleaving, any number of ready members, adds with traffic
+   queued, EINTR *)
+Theorem C06_no_lost_wakeup : forall tornp ls s, run tornp init ls = Some s ->
   forall m c, In (m, c) (members s) -> pending s c = true ->
   In m (ready s) \/ (exists batch acc, where_ s = Draining batch acc /\ In m batch).
 Proof. exact no_lost_wakeup. Qed.
 Print Assumptions C06_no_lost_wakeup.
 
 (* so select does not go on blocking while something is pending *)
-Theorem C06_select_does_not_block : forall ls s, run init ls = Some s -> where_ s = Waiting ->
-  (exists m c, In (m, c) (members s) /\ pending s c = true) -> exists s', step s LWait = Some s'.
+Theorem C06_select_does_not_block : forall tornp ls s, run tornp init ls = Some s -> where_ s = Waiting ->
+  (exists m c, In (m, c) (members s) /\ pending s c = true) -> exists s', step tornp s LWait = Some s'.
 Proof. exact select_does_not_block. Qed.
 Print Assumptions C06_select_does_not_block.
 
-(* every message of a member's channel (queued before the add included) exactly once, with its id, in send order *)
-Theorem C06_events_fifo : forall ls s m c, run init ls = Some s -> In (m, c) (ever s) ->
-  msgs_of (events_of s m) ++ queue (get s c) = sent (get s c).
+(* every complete message of a member's channel (queued before the add included) exactly once, with its id, in send order; the
+   unfinished ones never *)
+Theorem C06_events_fifo : forall tornp ls s m c, run tornp init ls = Some s -> In (m, c) (ever s) ->
+  msgs_of (events_of s m) ++ good tornp (queue (get s c)) = good tornp (sent (get s c)).
 Proof. exact events_fifo. Qed.
 Print Assumptions C06_events_fifo.
+Theorem C06_events_fifo_no_crash : forall ls s m c, run (fun _ => false) init ls = Some s -> In (m, c) (ever s) ->
+  msgs_of (events_of s m) ++ queue (get s c) = sent (get s c).
+Proof. exact events_fifo_plain. Qed.
+Print Assumptions C06_events_fifo_no_crash.
+Theorem C06_torn_invisible : forall tornp ls s m x, run tornp init ls = Some s -> In (EvMsg m x) (log s ++ acc_of s) -> tornp x = false.
+Proof. exact torn_invisible. Qed.
+Print Assumptions C06_torn_invisible.
+
+(* one non-blocking receive on the member at the head of the batch, with unfinished messages of a dead sender at the head of its
+   queue: the first complete message behind them is reported; with none behind them the closure is reported BY THE SAME CALL when
+   no sender is left, and otherwise the batch moves on *)
+Theorem C06_recv_skips_torn : forall tornp s m rest acc c, where_ s = Draining (m :: rest) acc -> lookup (members s) m = Some c ->
+  exists s', step tornp s LRecv = Some s' /\
+    match strip tornp (queue (get s c)) with
+    | x :: q' => where_ s' = Draining (m :: rest) (acc ++ [EvMsg m x]) /\ tornp x = false
+    | [] => if hup (get s c) then where_ s' = Draining rest (acc ++ [EvClosed m])
+            else where_ s' = Draining rest acc
+    end.
+Proof. exact recv_skips_torn. Qed.
+Print Assumptions C06_recv_skips_torn.
 
 (* exactly one closed event per member, after all of its messages, only when the channel is disconnected and drained *)
-Theorem C06_closed_once_last : forall ls s m c, run init ls = Some s -> In (m, c) (ever s) ->
+Theorem C06_closed_once_last : forall tornp ls s m c, run tornp init ls = Some s -> In (m, c) (ever s) ->
   In (EvClosed m) (events_of s m) ->
   (exists pre, events_of s m = pre ++ [EvClosed m] /\ ~ In (EvClosed m) pre) /\
   queue (get s c) = [] /\ hup (get s c) = true /\ ~ In (m, c) (members s).
@@ -39,16 +64,16 @@ Proof. exact closed_once_last. Qed.
 Print Assumptions C06_closed_once_last.
 
 (* ids of members are pairwise distinct (also over time) *)
-Theorem C06_ids_distinct : forall ls s, run init ls = Some s ->
+Theorem C06_ids_distinct : forall tornp ls s, run tornp init ls = Some s ->
   NoDup (map fst (ever s)) /\ (forall m c, In (m, c) (members s) -> In (m, c) (ever s)) /\ NoDup (map snd (ever s)).
 Proof. exact ids_distinct. Qed.
 Print Assumptions C06_ids_distinct.
 
 (* an interrupted wait changes nothing; the "unknown token" expect never fires *)
-Theorem C06_eintr_noop : forall s s', step s LWaitEintr = Some s' -> s' = s.
+Theorem C06_eintr_noop : forall tornp s s', step tornp s LWaitEintr = Some s' -> s' = s.
 Proof. exact eintr_is_noop. Qed.
 Print Assumptions C06_eintr_noop.
-Theorem C06_member_known : forall ls s m rest acc, run init ls = Some s -> where_ s = Draining (m :: rest) acc ->
+Theorem C06_member_known : forall tornp ls s m rest acc, run tornp init ls = Some s -> where_ s = Draining (m :: rest) acc ->
   exists c, lookup (members s) m = Some c.
 Proof. exact recv_knows_its_member. Qed.
 Print Assumptions C06_member_known.
@@ -57,9 +82,14 @@ Print Assumptions C06_member_known.
 Example C06_ex :
   let pre := repeat LNewChan 12 ++ map (fun c => LSend c c) (seq 0 12) ++ map LAdd (seq 0 12) in
   option_map (fun s => (length (log s), ready s))
-    (match run init (pre ++ [LSelect; LWait] ++ repeat LRecv 20 ++ [LReturn; LSelect; LWait] ++ repeat LRecv 4 ++ [LReturn]) with
+    (match run (fun _ => false) init (pre ++ [LSelect; LWait] ++ repeat LRecv 20 ++ [LReturn; LSelect; LWait] ++ repeat LRecv 4 ++ [LReturn]) with
      | Some s => Some s | None => None end)
   = Some (12%nat, []).
+Proof. vm_compute. reflexivity. Qed.
+(* ... and a member whose only sender was killed inside its second message (id 8), the set polling afterwards *)
+Example C06_ex_torn :
+  (option_map log (run (fun x => Nat.eqb x 8) init [LNewChan; LSend 0 7; LSend 0 8; LHup 0; LAdd 0; LSelect; LWait; LRecv; LRecv; LReturn])
+  = Some [EvMsg 0 7; EvClosed 0])%nat.
 Proof. vm_compute. reflexivity. Qed.
 
 (* ---- the public IpcReceiverSet inside whole-API programs (model: Api.v; proofs: ApiInv.v) ---- *)
